@@ -45,6 +45,16 @@ class Sentinel(object):
         return '<S%d>' % self._k
 
 
+class _Unevaluable(object):
+    """The symbol name is not a Python expression (str(QN) does not escape quotes: dd['it's'])."""
+
+    def __repr__(self):
+        return '<unevaluable>'
+
+
+UNEVALUABLE = _Unevaluable()
+
+
 class _Missing(object):
     def __init__(self, name, exc):
         self.name, self.exc = name, exc
@@ -113,7 +123,7 @@ class Instrument(object):
             self.failures.append({'what': what, 'cls': cls, 'detail': {k: repr(v)[:300] for k, v in detail.items()}})
 
     def same(self, a, b):
-        if a is b:
+        if a is b or a is UNEVALUABLE or b is UNEVALUABLE:
             return True
         if isinstance(a, self.Undefined) and isinstance(b, self.Undefined):
             return object.__getattribute__(a, 'symbol_name') == object.__getattribute__(b, 'symbol_name')
@@ -132,11 +142,16 @@ class Instrument(object):
                 out.append(eval(n, frame.f_globals, loc))
             except (KeyError, AttributeError, NameError, IndexError, TypeError) as e:
                 out.append(_Missing(n, type(e).__name__))
+            except SyntaxError:
+                out.append(UNEVALUABLE)
+                self.count('unevaluable_symbol_name')
         return tuple(out)
 
     def matches_frame(self, state, fvals, names):
         """state[i] is the frame value of names[i]; a missing composite reads as Undefined(name)."""
         for s, f, n in zip(state, fvals, names):
+            if f is UNEVALUABLE:
+                continue
             if isinstance(f, _Missing):
                 if not (isinstance(s, self.Undefined) and object.__getattribute__(s, 'symbol_name') == n):
                     return False
@@ -238,6 +253,9 @@ class Instrument(object):
         if op == 'if_stmt':
             if not (isinstance(nouts, int) and not isinstance(nouts, bool) and 0 <= nouts <= len(names)):
                 self.fail('nouts out of bounds', None, nouts=nouts, **ctx)
+        # opts
+        if op in ('while_stmt', 'for_stmt'):
+            self.check_opts(op, opts, ctx)
         # state probes
         n0 = self.log_len(frame)
         before = self.frame_vals(frame, names)
@@ -254,12 +272,19 @@ class Instrument(object):
             return
         if not self.matches_frame(s1, before, names):
             self.fail('get_state()[i] is not the caller-frame value of symbol_names[i]', None, state=s1, frame=before, **ctx)
+        dirty = False
         try:
             s2 = get_state()
             mid = self.frame_vals(frame, names)
             if not self.same_tuple(s1, s2) or not self.same_tuple(before, mid) or self.log_len(frame) != n0:
                 self.fail('get_state() is not pure', None, first=s1, second=s2, **ctx)
+            if any(b is UNEVALUABLE for b in before):
+                # the container of such an entry cannot be located from the name, so a probe of set_state could not be
+                # undone exactly: only the read-side checks are made for this invocation
+                self.count('set_probes_skipped_unevaluable_name')
+                return
             # (*) write back what was just read
+            dirty = True
             set_state(s1)
             s3 = get_state()
             after = self.frame_vals(frame, names)
@@ -281,7 +306,7 @@ class Instrument(object):
                     else 'aliased_state_entries' if aliased else None)
             if not (len(s4) == len(vs) and all(a is b for a, b in zip(s4, vs))):
                 self.fail('get_state() after set_state(vs) is not vs', cls2, got=s4, **ctx)
-            if not all(a is b for a, b in zip(f4, vs)):
+            if not all(a is b or a is UNEVALUABLE for a, b in zip(f4, vs)):
                 self.fail('after set_state(vs) the caller-frame variables are not vs', cls2, got=f4, **ctx)
             if dependent_entries(names):
                 self.count('probed_with_dependent_entries')
@@ -297,15 +322,13 @@ class Instrument(object):
                       undefined_roots=roots_undefined, **ctx)
         finally:
             try:
-                self.restore(frame, set_state, s1, names, before, conts)
+                if dirty:
+                    self.restore(frame, set_state, s1, names, before, conts)
                 fin = self.frame_vals(frame, names)
                 if not self.same_tuple(before, fin):
                     self.count('RESTORE-FAILED')
             except Exception as e:  # noqa
                 self.count('RESTORE-RAISED:' + type(e).__name__)
-        # opts
-        if op in ('while_stmt', 'for_stmt'):
-            self.check_opts(op, opts, ctx)
 
     def check_opts(self, op, opts, ctx):
         if not isinstance(opts, dict):
